@@ -854,3 +854,98 @@ func VH_C17_cluster3_partition_heal() {
 	vAssert(step >= 4, "script-completed")
 	vReach("end")
 }
+
+//verif:check C07,C03 sched=coop maxsteps=1000000 onunwind=violation stubs=rt,timers,valuefile,abslog onblock=violation reach=submitted,answered,closed,end desc="client-visible semantics end to end on two real nodes with the real batching goroutine (runBatch): one client pipelines update, read, update, barrier, read to the leader without waiting; another sends an update and a dirty read to the follower. Every task completes; the updates took effect exactly once at consecutive positions in submission order with the position reported; each read reflects exactly the updates accepted before it; the follower rejects the update with a not-leader error naming the leader (not lost) and it takes effect nowhere; the dirty read exposes only committed updates; both state machines end with the same command sequence" bounds="leader + follower (third voter down); 5 pipelined tasks + 2 tasks at the follower; 1-byte symbolic commands; round-robin goroutine schedule"
+func VH_C07_cluster2_client_ops() {
+	cfgE := vClusterConfig().encode()
+	cfgE.index, cfgE.term = 1, 1
+	e2 := &entry{index: 2, term: 1, typ: entryUpdate, data: vBytes("payload2", 1)}
+	e3 := &entry{index: 3, term: 2, typ: entryUpdate, data: vBytes("payload3", 1)}
+	c := vNewCluster()
+	c.add(1, []*entry{cfgE, e2, e3}, 3, 1, 2)
+	c.add(2, []*entry{cfgE, e2, e3}, 3, 1, 2)
+	L, F := c.nodes[1], c.nodes[2]
+	L.state, L.leader = Leader, 1
+	c.wire()
+	c.start(1)
+	go L.runBatch()
+	go F.runBatch()
+	cmd1, cmd2, cmdF := vBytes("cmd1", 1), vBytes("cmd2", 1), vBytes("cmdF", 1)
+	u1, r1, u2, b, r2 := UpdateFSM(cmd1), ReadFSM("q"), UpdateFSM(cmd2), BarrierFSM(), ReadFSM("q")
+	uf, df := UpdateFSM(cmdF), DirtyReadFSM("q")
+	lfsm, ffsm := L.fsm.FSM.(*vFSM), F.fsm.FSM.(*vFSM)
+	step := 0
+	vSetIdleHook(func() {
+		switch step {
+		case 0:
+			vAssert(L.commitIndex == 4 && F.commitIndex == 4, "O-settled")
+			go func() {
+				for _, t := range []FSMTask{u1, r1, u2, b, r2} {
+					L.FSMTasks() <- t
+				}
+			}()
+			go func() {
+				F.FSMTasks() <- uf
+				F.FSMTasks() <- df
+			}()
+			vReach("submitted")
+		case 1:
+			for _, t := range []FSMTask{u1, r1, u2, b, r2, uf, df} {
+				vAssert(isClosed(t.Done()), "O-every-task-completes")
+			}
+			vReach("answered")
+			vAssert(u1.Err() == nil && u1.Result() == 3, "O-first-update-third-command")
+			vAssert(r1.Err() == nil && r1.Result() == 3, "O-read-reflects-exactly-the-updates-accepted-before-it")
+			vAssert(u2.Err() == nil && u2.Result() == 4, "O-second-update-follows-the-first")
+			vAssert(b.Err() == nil, "O-barrier-completes")
+			vAssert(r2.Err() == nil && r2.Result() == 4, "O-second-read-reflects-both-updates")
+			nle, ok := uf.Err().(NotLeaderError)
+			vAssert(ok && nle.Leader.ID == 1 && !nle.Lost, "O-follower-rejects-update-definitively-naming-the-leader")
+			vAssert(df.Err() == nil, "O-dirty-read-served-by-follower")
+			if n, ok := df.Result().(int); ok {
+				vAssert(n >= 2 && n <= 4, "O-dirty-read-exposes-only-committed-updates")
+			} else {
+				vAssert(false, "O-dirty-read-result-type")
+			}
+			vAssert(len(lfsm.updates) == 4 && bytes.Equal(lfsm.updates[2], cmd1) && bytes.Equal(lfsm.updates[3], cmd2), "O-updates-applied-once-in-submission-order")
+			vAssert(vSameUpdates(lfsm, ffsm), "O-rejected-update-applied-nowhere-and-machines-agree")
+			vAssert(L.lastLogIndex == 6 && L.commitIndex == 6 && F.commitIndex == 6, "O-only-updates-enter-the-log")
+			c.closeAll()
+		}
+		step++
+	})
+	L.stateLoop()
+	vReach("closed")
+	vAssert(step >= 2, "script-completed")
+	vReach("end")
+}
+
+//verif:check C07,C15 sched=coop stubs=rt,timers,valuefile,abslog onblock=violation reach=batched,second-batch,closed,end desc="the real batching goroutine (Raft.runBatch) between clients and the state loop: tasks submitted while the state loop is busy are handed over as one chain in submission order, each exactly once and nil-terminated; a later task starts a new chain; on shutdown a pending chain is still handed over and the channel is closed" bounds="3 tasks in the first batch, 1 in the second, 1 pending at shutdown; symbolic task kinds"
+func VH_C07_runBatch_order() {
+	r := vLoopNode(Leader)
+	go r.runBatch()
+	var ts []*newEntry
+	for i := 0; i < 5; i++ {
+		typ := entryType(vU8("kind"))
+		vAssume(typ == entryUpdate || typ == entryRead || typ == entryBarrier || typ == entryDirtyRead)
+		ts = append(ts, &newEntry{task: newTask(), entry: &entry{typ: typ}})
+	}
+	for _, t := range ts[:3] {
+		r.FSMTasks() <- t // the state loop is busy: nobody receives the batch yet
+	}
+	head := <-r.newEntryCh
+	vReach("batched")
+	vAssert(head == ts[0] && head.next == ts[1] && ts[1].next == ts[2] && ts[2].next == nil, "B-batch-is-the-submission-order-chain")
+	r.FSMTasks() <- ts[3]
+	second := <-r.newEntryCh
+	vReach("second-batch")
+	vAssert(second == ts[3] && second.next == nil, "B-next-task-starts-a-fresh-chain")
+	r.FSMTasks() <- ts[4]
+	r.doClose(ErrServerClosed)
+	last, ok := <-r.newEntryCh
+	vAssert(ok && last == ts[4] && last.next == nil, "B-pending-chain-handed-over-at-shutdown")
+	_, ok = <-r.newEntryCh
+	vAssert(!ok, "B-channel-closed-after-shutdown")
+	vReach("closed")
+	vReach("end")
+}
